@@ -113,6 +113,13 @@ func (m *shareModel) step(op OpSpec) []string {
 			m.subj = nil
 		}
 		return nil
+	case "subq":
+		// a subscriber that leaves from inside its first delivery (the connector's replay, during Subscribe)
+		d := m.step(OpSpec{Client: op.Client, Op: "sub", A: op.A})
+		if len(d) > 0 {
+			m.step(OpSpec{Client: op.Client, Op: "unsub", A: op.A})
+		}
+		return d
 	case "twin":
 		return nil // the other observable built from the same operator value ends: no effect here
 	case "srcN":
@@ -256,6 +263,11 @@ func init() {
 			}
 			sc.Sources = []SrcSpec{{Mode: "manual"}}
 			sc.Ops = genShareOps(g, sc.Sub == "connectable", sc.Int("clients", 1))
+			if sc.Sub == "share" && sc.Int("connector", 0) == 1 && clients == 1 && g.Bool(0.5) {
+				// (behavior connector: it replays its current value inside Subscribe)
+				at := g.Intn(len(sc.Ops) + 1)
+				sc.Ops = append(sc.Ops[:at], append([]OpSpec{{Client: 0, Op: "subq", A: 8}}, sc.Ops[at:]...)...)
+			}
 			if sc.Int("twin", 0) > 0 && sc.Sub != "connectable" {
 				at := g.Intn(len(sc.Ops) + 1)
 				sc.Ops = append(sc.Ops[:at], append([]OpSpec{{Client: 0, Op: "twin"}}, sc.Ops[at:]...)...)
@@ -392,6 +404,23 @@ func runC11(e *Env) {
 			if s := subs[op.A]; s != nil {
 				s.Unsubscribe()
 			}
+		case "subq":
+			// a Subscriber made by the caller, which unsubscribes itself inside its first delivery
+			id := op.A
+			var self ro.Subscriber[int]
+			quit := func(k string) {
+				cur = append(cur, fmt.Sprintf("s%d@%d:%s", id, counts[id], k))
+				counts[id]++
+				if self != nil {
+					self.Unsubscribe()
+				}
+			}
+			self = ro.NewSubscriber(ro.NewObserver(
+				func(v int) { quit(fmt.Sprintf("N%d", v)) },
+				func(err error) { quit("E(" + errCode(err) + ")") },
+				func() { quit("C") },
+			))
+			subs[id] = shared.Subscribe(self)
 		case "twin":
 			if endTwin != nil {
 				endTwin()
